@@ -19,7 +19,7 @@ BASES = [b'/p/base', b'/base']
 CWDS = {'equal': None, 'ancestor': b'/p', 'unrelated': b'/other/place', 'root': b'/'}
 
 
-def h_run(m, ctx, depth, cwd_kind, shell_cmd=b'', ncont=1, exit_code=None, mode='Build', base=b'/p/base', empty_cont=None, srcdir_abs=None, rel_path_shell=False):
+def h_run(m, ctx, depth, cwd_kind, shell_cmd=b'', ncont=1, exit_code=None, mode='Build', base=b'/p/base', empty_cont=None, srcdir_abs=None, rel_path_shell=False, decoy_sh=False):
     it = Interp(m, ctx)
     cwd = CWDS[cwd_kind] or base
     subdirs = [b's1', b's2', b's3'][:depth]
@@ -46,6 +46,10 @@ def h_run(m, ctx, depth, cwd_kind, shell_cmd=b'', ncont=1, exit_code=None, mode=
     env.add_file(src, source)
     env.add_file(b'/bin/sh', b'')
     env.add_file(b'/usr/bin/bash', b'')
+    if decoy_sh:
+        # entries of the process working directory that merely have the shell's name: the shell is looked up in $PATH, not there
+        env.add_dir(cwd.rstrip(b'/') + b'/sh')
+        env.add_file(cwd.rstrip(b'/') + b'/bash', b'#!/bin/sh\necho hijacked\n')
     if rel_path_shell:
         # a shell that is found through a relative $PATH entry (relative to the process cwd, as the OS resolves it)
         env.add_dir(cwd + b'/tools/bin')
@@ -64,7 +68,7 @@ def h_run(m, ctx, depth, cwd_kind, shell_cmd=b'', ncont=1, exit_code=None, mode=
     shell_new = m.find_method('Shell', 'new')
     sr = it.call_mir(shell_new, [StrV(tuple(shell_cmd))])
     data = {'op': 'run', 'depth': depth, 'cwd': cwd.decode(), 'base': base.decode(), 'src': src.decode(), 'shell_cmd': shell_cmd.decode(),
-            'source': syms_of(source), 'exit': code, 'out': syms_of(outb), 'mode': mode, 'rel_path_shell': rel_path_shell}
+            'source': syms_of(source), 'exit': code, 'out': syms_of(outb), 'mode': mode, 'rel_path_shell': rel_path_shell, 'decoy_sh': decoy_sh}
     if sr.idx != 0:
         violation(ctx, 'Shell::new failed for an installed shell', data)
     shell = sr.f[0]
@@ -233,12 +237,18 @@ def jobs(tier):
     for depth in (0, 1, 2):
         js.append({'name': 'run shell found through a relative PATH entry depth=%d' % depth, 'harness': (H, 'h_run'), 'mir': MIR_KINDS,
                    'params': {'depth': depth, 'cwd_kind': 'equal', 'shell_cmd': b'mysh -c', 'rel_path_shell': True, 'exit_code': 0}})
+    for sc in (b'', b'bash -c', b'sh -c'):
+        for ck in ('equal', 'unrelated'):
+            js.append({'name': 'run shell=%r with entries named sh / bash in the process cwd (%s)' % (sc, ck), 'harness': (H, 'h_run'), 'mir': MIR_KINDS,
+                       'params': {'depth': 1, 'cwd_kind': ck, 'shell_cmd': sc, 'decoy_sh': True, 'exit_code': 0}})
     js.append({'name': 'run single line', 'harness': (H, 'h_run'), 'mir': MIR_KINDS, 'params': {'depth': 1, 'cwd_kind': 'equal', 'ncont': 0}})
     for mode in ('InMemoryBuild', 'Clean'):
         js.append({'name': 'run mode=%s' % mode, 'harness': (H, 'h_run'), 'mir': MIR_KINDS, 'params': {'depth': 1, 'cwd_kind': 'ancestor', 'mode': mode, 'exit_code': 0}})
     for sub in (None, 'Clean', 'Verify'):
         for tf in (None, b'', b'x', b'sub/inner.txtpp'):
             js.append({'name': 'cli sub=%s TXTPP_FILE=%r' % (sub, tf), 'harness': (H, 'h_cli'), 'mir': MIR_KINDS, 'params': {'sub': sub, 'txtpp_file': tf}})
+    from . import project
+    js += project.jobs('C17', tier)
     return js
 
 
@@ -339,6 +349,10 @@ def replay(native, v):
     os.makedirs(os.path.dirname(src), exist_ok=True)
     os.makedirs(cwd, exist_ok=True)
     os.makedirs(base, exist_ok=True)
+    if d.get('decoy_sh'):
+        os.makedirs(os.path.join(cwd, 'sh'), exist_ok=True)
+        open(os.path.join(cwd, 'bash'), 'w').write('#!/bin/sh\necho hijacked\n')
+        os.chmod(os.path.join(cwd, 'bash'), 0o755)
     srcb = ppreplay.conc(d['source'], model)
     # replace the symbolic command by an observable one with the same line structure
     nl = srcb.count(b'\n')
